@@ -231,11 +231,11 @@ def t_matrix():
                 n += 1
             stats.nt("matrix", cname, vk, pos)
     # every flag subset of =~ on subjects that need each flag (and combinations of them)
-    subjects = ["abc", "ABC", "a\nc", "A\nC", "\u00e9\u00e9", "\u00c9\u00e9", "ab\nAB", "x"]
+    subjects = ["abc", "ABC", "a\nc", "A\nC", "\u00e9\u00e9", "\u00c9\u00e9", "ab\nAB", "x", "ab", "a", "aa", "abcd", "", "AB"]
     for k in range(0, 5):
         for combo in itertools.combinations("aims", k):
             fl = "".join(combo)
-            for pat in ("A.C", "a.c", "\\w\\w", "\u00e9\u00c9", "ab.ab", "X"):
+            for pat in ("A.C", "a.c", "\\w\\w", "\u00e9\u00c9", "ab.ab", "X", "a|ab", "ab|a", "ab??", "a+?", ".*?", "(a|ab)(c|bcd)?", "x|"):
                 ast = ["q", "$", [["c", [["f", ["re", SELF, pat, fl]]]]]]
                 for text in (Renderer(None).query(ast, top=True), "$[?@ =~ /%s/%s]" % (pat, fl[::-1])):
                     judge(stats, ast, list(subjects), text, "regex-flags", extra=None)
